@@ -37,7 +37,12 @@ from pyanalyze.checker import Checker  # noqa: E402
 from pyanalyze.typevar import resolve_bounds_map  # noqa: E402
 
 VOCAB = ["int", "bool", "str", "float", "A", "B", "object", "None", "int | str", "Literal[1]", "list[int]", "list[bool]"]
-TVS = {"plain": "T", "bound": "TB", "constr": "TC"}
+TVS = {"plain": "T", "bound": "TB", "constr": "TC", "constr-ab": "TCab", "constr-ba": "TCba", "constr-fi": "TCfi", "constr-oi": "TCoi"}
+# constrained type variables; besides (int, str) of the vocabulary, constraint lists whose members are subtypes of
+# one another, broader first and narrower first (declared in the generated module)
+CONSTRAINTS = {"constr": ("int", "str"), "constr-ab": ("A", "B"), "constr-ba": ("B", "A"), "constr-fi": ("float", "int"),
+               "constr-oi": ("object", "int")}
+TV_DECLS = [f'{TVS[k]} = TypeVar("{TVS[k]}", {", ".join(c)})' for k, c in CONSTRAINTS.items() if k != "constr"]
 
 
 def ident(t):
@@ -79,8 +84,8 @@ def has_solution(kind, bounds):
     if kind == "bound":
         uppers.append(ty("A"))
     cands = [member.union(lowers) if lowers else member.NEVER]
-    if kind == "constr":
-        cands = [ty("int"), ty("str")]
+    if kind in CONSTRAINTS:
+        cands = [ty(c) for c in CONSTRAINTS[kind]]
     for s in cands:
         ok = all(included(l, s) is not False for l in lowers) and all(included(s, u) is not False for u in uppers)
         if ok:
@@ -92,6 +97,10 @@ def check_solution(kind, bounds, sigma):
     """sigma: pyanalyze Value for T.  Returns list of (what-key, text)."""
     out = []
     s_ty = member.from_value(sigma)
+    if kind in CONSTRAINTS and isinstance(sigma, V.AnyValue) and sigma.source is V.AnySource.inference:
+        # "several constraints remain": with constraint lists made of classes (nested or disjoint) one constraint is
+        # always the narrowest one that accepts the bounds
+        return [("not-a-constraint", f"solution {sigma} is not one of the constraints {CONSTRAINTS[kind]}")]
     if member.has_top_any(s_ty) or member.contains_unknown(s_ty):
         return None
     for b in bounds:
@@ -104,9 +113,9 @@ def check_solution(kind, bounds, sigma):
                 out.append(("upper-violated", f"solution {sigma} is not included in upper bound {b['t']}"))
     if kind == "bound" and included(s_ty, ty("A")) is False:
         out.append(("declared-bound-violated", f"solution {sigma} is not included in the declared bound A"))
-    if kind == "constr":
-        if not any(included(s_ty, ty(c)) is True and included(ty(c), s_ty) is True for c in ("int", "str")):
-            out.append(("not-a-constraint", f"solution {sigma} is not one of the constraints (int, str)"))
+    if kind in CONSTRAINTS:
+        if not any(included(s_ty, ty(c)) is True and included(ty(c), s_ty) is True for c in CONSTRAINTS[kind]):
+            out.append(("not-a-constraint", f"solution {sigma} is not one of the constraints {CONSTRAINTS[kind]}"))
     return out
 
 
@@ -132,7 +141,7 @@ def arg_expr(b):
 
 
 def build_module(cases, max_perms=6):
-    lines = list(HEADER)
+    lines = list(HEADER) + TV_DECLS
     for t in VOCAB:
         lines.append(f"def f_{ident(t)}(x: {t}) -> None: ...")
     plan = []
@@ -263,9 +272,19 @@ def nontrivial(kind, bounds):
 # ----------------------------------------------------------------- API level
 
 
+_tvs = {}
+
+
+def _local_tv(kind):
+    if kind not in _tvs:
+        from typing import TypeVar
+        _tvs[kind] = TypeVar(TVS[kind], *[universe.eval_type(c) for c in CONSTRAINTS[kind]])
+    return _tvs[kind]
+
+
 def api_check(kind, bounds, ctx):
     """All permutations through resolve_bounds_map.  Returns list of (key, what)."""
-    tv = NS[TVS[kind]]
+    tv = NS[TVS[kind]] if TVS[kind] in NS else _local_tv(kind)
     bs = []
     for b in bounds:
         val = type_from_runtime(universe.eval_type(b["t"]))
@@ -273,8 +292,8 @@ def api_check(kind, bounds, ctx):
     extra = []
     if kind == "bound":
         extra.append(V.UpperBound(tv, type_from_runtime(NS["A"])))
-    if kind == "constr":
-        extra.append(V.IsOneOf(tv, (V.TypedValue(int), V.TypedValue(str))))
+    if kind in CONSTRAINTS:
+        extra.append(V.IsOneOf(tv, tuple(type_from_runtime(universe.eval_type(c)) for c in CONSTRAINTS[kind])))
     results = []
     for perm in itertools.permutations(range(len(bs))):
         seq = [bs[i] for i in perm] + extra
@@ -306,7 +325,7 @@ def bound_strategy():
 
 
 def case_strategy():
-    return st.tuples(st.sampled_from(["plain", "plain", "bound", "constr"]),
+    return st.tuples(st.sampled_from(["plain", "plain", "bound", "constr", "constr-ab", "constr-ba", "constr-fi", "constr-oi"]),
                      st.lists(bound_strategy(), min_size=1, max_size=4))
 
 
